@@ -129,3 +129,22 @@ Example circ_example_abutting :
   convert_circ x_anno_abut (mkCerec 20 40 [10; 10] [0; 10] 3 0 0 0) (0, 0) (0, 0) =
   COk (mkCirc [(25, 35); (15, 25)] [] 15 35).
 Proof. split; [cbn; lia|]. split; vm_compute; reflexivity. Qed.
+
+(* ---- code-level tie (docs/py2coq.md): the BODY of CIRCexplorer2KnownRecord.convert_to_circ_rna (inherited unchanged
+        by the CIRCexplorer3 record: the two column layouts differ only in is_valid) -- circ type decision, the block
+        loop (offset look-up, two genomic -> gene conversions, strand swap, fragment location, exon / intron look-up,
+        intron list), the back-splicing site and the emitted model -- translated from /repo's current source by
+        harness/translate/py2coq.py into coq/Gen/Py_CIRCexplorerParser.v on every run, is Circ.convert_circ.
+        Hypothesis ce_start r <= ce_end r: the code builds FeatureLocation(start_gene, end_gene) for the back-splicing
+        site (ValueError for end < start); the hand model has no such check. ---- *)
+From MoPep Require Gen.Py_CIRCexplorerParser.
+From MoPep Require Import Proofs.Py2CoqCircProofs.
+
+Theorem code_convert_circ_translated : Py_CIRCexplorerParser.py_convert_circ_untranslated = false.
+Proof. vm_compute. reflexivity. Qed.
+Print Assumptions code_convert_circ_translated.
+
+Theorem code_convert_circ_is_model : forall a r sr er, ce_start r <= ce_end r ->
+  Py_CIRCexplorerParser.py_convert_circ a r sr er = convert_circ a r sr er.
+Proof. exact code_convert_circ_is_model_l. Qed.
+Print Assumptions code_convert_circ_is_model.
